@@ -19,6 +19,7 @@
     inside one command parser every alternative/option only ever sees recoverable errors, and at
     the top level both make [Program::from_str] return an error. *)
 From Coq Require Import List NArith ZArith Bool.
+From QV Require Model.Lex.
 Import ListNotations.
 
 Inductive cmd :=
@@ -793,7 +794,10 @@ Definition alphabet (a : alpha_id) : list tok :=
 Inductive case :=
 | CSingle (e : entry) (ts : option (list tok)) (o : outcome)
 | CGroup (e : entry) (a : alpha_id) (prefix : list tok) (default : outcome)
-         (exceptions : list (N * outcome)).
+         (exceptions : list (N * outcome))
+(** byte-level lexer case: the text's bytes and what the real lexer did with them; judged by the
+    byte-level lexer model Model/Lex.v ([Lex.lex_code]), independent of [variant] *)
+| CLex (bytes : list N) (o : Lex.lobs).
 
 Fixpoint lookup_out (i : N) (ex : list (N * outcome)) (default : outcome) : outcome :=
   match ex with
@@ -830,6 +834,7 @@ Definition case_code (vr : variant) (c : case) : N :=
       if forallb (fun x : N * outcome => chk_outcome (snd x)) ex
       then group_code vr e prefix d ex 0 (alphabet a)
       else 2%N
+  | CLex bytes o => Lex.lex_code bytes o
   end.
 
 Fixpoint failing_from (vr : variant) (i : N) (l : list case) : list (N * N) :=
